@@ -59,6 +59,8 @@ def fam_props(mm):
         {"name": "dep", "type": STR, "optional": True, "deprecated": "use something else", "since": "3.18.0", "proposed": True},
         {"name": "zk", "type": ref("ZzKind")},
         {"name": "zn", "type": ref("ZzNum"), "optional": True},
+        {"name": "multiNull", "type": {"kind": "or", "items": [STR, INT, NULL]}},
+        {"name": "multiNullOpt", "type": {"kind": "or", "items": [ref("Position"), ref("Range"), NULL]}, "optional": True},
     ]})
     return m
 
@@ -97,6 +99,25 @@ def fam_keywords(mm):
     m = copy.deepcopy(mm)
     kws = [k for k in keyword.kwlist if k.islower()]
     m["structures"].append({"name": "ZzKeywords", "properties": [{"name": k, "type": STR, "optional": (i % 2 == 0)} for i, k in enumerate(kws)]})
+    # keyword names on special (null-admitting / literal) properties, on a structure and inside an anonymous literal
+    m["structures"].append({"name": "ZzKeywordSpecial", "properties": [
+        {"name": "global", "type": {"kind": "or", "items": [STR, NULL]}},
+        {"name": "class", "type": {"kind": "stringLiteral", "value": "zz"}},
+        {"name": "nonlocal", "type": {"kind": "or", "items": [ref("Range"), NULL]}, "optional": True},
+        {"name": "lambda", "type": {"kind": "literal", "value": {"properties": [{"name": "import", "type": {"kind": "or", "items": [UINT, NULL]}}, {"name": "pass", "type": STR, "optional": True}]}}}]})
+    return m
+
+
+def fam_inherit_redeclare(mm):
+    """inheritance chains of depth 3 where a middle structure re-declares (narrows) a property of its base: nearest wins"""
+    m = copy.deepcopy(mm)
+    m["structures"].append({"name": "ZzTraceBase", "properties": [{"name": "level", "type": {"kind": "or", "items": [INT, NULL]}}, {"name": "tag", "type": STR, "optional": True}]})
+    m["structures"].append({"name": "ZzTraceMid", "extends": [ref("ZzTraceBase")], "properties": [{"name": "level", "type": INT}]})
+    m["structures"].append({"name": "ZzTraceLeaf", "extends": [ref("ZzTraceMid")], "properties": [{"name": "leaf", "type": BOOL}]})
+    m["structures"].append({"name": "ZzCreateFileFromTemplate", "extends": [ref("CreateFile")], "properties": [{"name": "template", "type": STR}]})
+    m["structures"].append({"name": "ZzMixA", "properties": [{"name": "shared", "type": STR}, {"name": "onlyA", "type": UINT, "optional": True}]})
+    m["structures"].append({"name": "ZzMixB", "mixins": [ref("ZzMixA")], "properties": [{"name": "shared", "type": {"kind": "or", "items": [STR, NULL]}}]})
+    m["structures"].append({"name": "ZzMixC", "extends": [ref("VersionedTextDocumentIdentifier")], "mixins": [ref("ZzMixB")], "properties": [{"name": "version", "type": {"kind": "or", "items": [INT, NULL]}}]})
     return m
 
 
@@ -123,6 +144,27 @@ def fam_enums(mm):
     return m
 
 
+def fam_core(mm):
+    """one combined model with the most bug-prone edits, used by the quick tier on every run"""
+    m = fam_messages(mm, True)
+    for f in (fam_keywords, fam_inherit_redeclare, fam_literal_union_member, fam_enums):
+        x = f(mm)
+        for sec in ("structures", "enumerations", "requests", "notifications", "typeAliases"):
+            have = {json.dumps(e, sort_keys=True) for e in m[sec]}
+            names = {e.get("name", e.get("method")) for e in m[sec]}
+            for e in x[sec]:
+                key = e.get("name", e.get("method"))
+                if key not in names:
+                    m[sec].append(copy.deepcopy(e))
+                    names.add(key)
+                elif json.dumps(e, sort_keys=True) not in have:
+                    # an existing declaration that the family edits (enum values added): take the edited one
+                    for i, old in enumerate(m[sec]):
+                        if old.get("name", old.get("method")) == key and len(json.dumps(e)) > len(json.dumps(old)):
+                            m[sec][i] = copy.deepcopy(e)
+    return m
+
+
 def systematic(mm):
     """[(name, model)] — the systematic part, exhaustive over targets"""
     al = [("alias", a["name"]) for a in mm["typeAliases"] if a["name"] != "LSPObject"]
@@ -130,12 +172,14 @@ def systematic(mm):
     st = [("struct", n) for n in ("Position", "Range", "Command", "TextEdit", "Location", "MarkupContent")] + [("base", b) for b in ("string", "integer", "uinteger", "decimal", "boolean", "DocumentUri", "URI")]
     return [
         ("identity", copy.deepcopy(mm)),
+        ("core", fam_core(mm)),
         ("props", fam_props(mm)),
         ("msgs-typename", fam_messages(mm, True)),
         ("msgs-no-typename", fam_messages(mm, False)),
         ("remove-optional", fam_remove_optional(mm)),
         ("literal-union-member", fam_literal_union_member(mm)),
         ("keywords", fam_keywords(mm)),
+        ("inherit-redeclare", fam_inherit_redeclare(mm)),
         ("marks", fam_marks(mm)),
         ("enums", fam_enums(mm)),
         ("refs-structs-base", fam_refs(mm, st, "S")),
